@@ -10,7 +10,7 @@ def run(ctx):
     m = ctx.mir("default")
     out = [F.docs_operations_rule(m["ts_rs_macros"], "C15"), F.docs_slot_rule(m["ts_rs_macros"], "C15"), T.layout_rule(m["ts_rs"], "C15", rule="C15.R2b"),
            X.docs_containment_rule(m["ts_rs_macros"], "C15"), X.docs_separator_rule(m["ts_rs_macros"], m["ts_rs"], "C15")]
-    out.append(T.docs_init_rule(ctx.syn, "C15"))
+    out.append(F.docs_init_rule(ctx.mir("default")["ts_rs_macros"], "C15"))
     out.append(T.impl_assembly_rule(ctx.syn, "C15", "C15.R8"))
     from rules import libimpls as L
     out.append(L.units_rule(m["ts_rs"], "C15", rule="C15.R10"))
